@@ -381,6 +381,8 @@ func (p *pool) run(kind string, c Case, tr *hx.Trace) {
 			switch {
 			case c.Mut.Kind == "es-forge" && r.From != 0:
 				sig = "sender-forged-es-downgrade"
+			case c.Mut.Kind == "pu-forge" && r.From != 0:
+				sig = "sender-forged-1pu-foreign-static-key"
 			case c.Mut.Kind == "coreenc" && c.H1.Packer == "leg-auth":
 				sig = "legacy-authcrypt-corecipient-forgery"
 			}
@@ -839,6 +841,9 @@ func (p *pool) mutateJWE(c Case, e1, e2 []byte) ([]byte, string, bool, error) {
 	case "es-forge":
 		// an outsider (party 5) uses the public API: NewJWEEncrypt with a sender KEY ID but no sender key
 		return p.esForge(c)
+	case "pu-forge":
+		// an outsider (party 5) uses the public API with ITS OWN static key but names the honest sender in skid
+		return p.puForge(c)
 	case "coreenc":
 		// a co-recipient (owner of recipient 1) obtains the content key and re-encrypts another payload
 		return p.coReencJWE(c, r1)
@@ -892,6 +897,71 @@ func (p *pool) esForge(c Case) ([]byte, string, bool, error) {
 
 	coq := fmt.Sprintf("WJwe (adv_es_jwe (mkcfg JweAnon %s %s %s) %s %d %s (mkrnd 200000 200050 200051))", h.kt(), h.Enc,
 		coqStyle(h.Style), skidCoq, forged, hx.CoqNList(rn))
+
+	return []byte(s), coq, true, nil
+}
+
+func puAlg(kt, enc string) string {
+	if kt == env.X25519 {
+		return "PU_XC20PKW"
+	}
+
+	switch enc {
+	case "A192CBC":
+		return "PU_A192KW"
+	case "A256CBC512":
+		return "PU_A256KW"
+	}
+
+	return "PU_A128KW"
+}
+
+func (p *pool) puForge(c Case) ([]byte, string, bool, error) {
+	h := c.H1
+	mal := p.w.Parties[5]
+	malKey := p.keys[h.kt()][5][0]
+	claimed := p.key(h, h.Sender)
+
+	var recs []*cryptoapi.PublicKey
+
+	var rn []int
+
+	for _, k := range p.rcpts(h) {
+		pk := *k.Pub
+		pk.KID = k.Ref(h.Style)
+		recs = append(recs, &pk)
+		rn = append(rn, k.Name)
+	}
+
+	kh, err := mal.KMS.Get(malKey.KMSKID)
+	if err != nil {
+		return nil, "", false, err
+	}
+
+	je, err := jose.NewJWEEncrypt(env.EncAlg(h.Enc), transport.MediaTypeV2EncryptedEnvelope, transport.MediaTypeV2PlaintextPayload,
+		claimed.Ref(h.Style), kh.(*keyset.Handle), recs, mal.Crypto)
+	if err != nil {
+		return nil, "", false, err
+	}
+
+	j, err := je.Encrypt(payloadBytes(forged))
+	if err != nil {
+		return nil, "", false, err
+	}
+
+	var s string
+	if len(recs) == 1 {
+		s, err = j.CompactSerialize(json.Marshal)
+	} else {
+		s, err = j.FullSerialize(json.Marshal)
+	}
+
+	if err != nil {
+		return nil, "", false, err
+	}
+
+	coq := fmt.Sprintf("WJwe (adv_1pu_jwe (mkcfg JweAuth %s %s %s) %s %d %d %d %s (mkrnd 200000 200050 200051))", h.kt(), h.Enc,
+		coqStyle(h.Style), puAlg(h.kt(), h.Enc), forged, claimed.Name, malKey.Name, hx.CoqNList(rn))
 
 	return []byte(s), coq, true, nil
 }
@@ -1290,6 +1360,11 @@ func (p *pool) gen(tr *hx.Trace, rng *hx.Rng, thorough bool) {
 				h1 := mk(packer, cf[0], cf[1], cf[2], n, 11, 0)
 				// e2: independently produced; same sender and recipients, another payload — or another sender
 				h2 := mk(packer, cf[0], cf[1], cf[2], n, 22, j%2)
+
+				if n == 3 && j%2 == 1 && cf[2] != "pdoc" {
+					// the victim holds TWO of the recipient keys (entries 0 and 2): a damaged entry 0 must not stop it
+					h1.Rcpts[2], h2.Rcpts[2] = [2]int{1, 1}, [2]int{1, 1}
+				}
 				pairs = append(pairs, pair{h1, h2})
 			}
 		}
@@ -1444,6 +1519,11 @@ func (p *pool) gen(tr *hx.Trace, rng *hx.Rng, thorough bool) {
 			emit("attack", pr, Mut{Kind: "es-forge", Arg: "skid"}, victim, "packager")
 			emit("attack", pr, Mut{Kind: "es-forge", Arg: "skid"}, victim, "packer")
 			emit("attack", pr, Mut{Kind: "es-forge", Arg: "noskid"}, victim, "packager")
+		}
+
+		if !legacy && auth {
+			emit("attack", pr, Mut{Kind: "pu-forge"}, victim, "packager")
+			emit("attack", pr, Mut{Kind: "pu-forge"}, victim, "packer")
 		}
 
 		if n > 1 && auth {
